@@ -1,4 +1,5 @@
 import MalVerif.Proofs.LangGraphLemmas
+import MalVerif.Proofs.LangGraphOrder
 import MalVerif.Props.C01
 /-!
 # C15 — the language graph mirrors the language and over-approximates every attack graph
@@ -24,6 +25,17 @@ Model: `Model/LangGraph.lean` (`supers`, `declaredFor`, `assocNodes`, `assocsOf`
   `StarTyped`), `type_soundness_partial` (transitive-free fragment, no side condition),
   `star_side_condition_needed` (the side condition cannot be dropped).
 * `overapprox`, `overapprox_partial`.
+* hypotheses in primitive form (definitions in `Proofs/LangGraphOrder.lean`: `NoVarRedecl`, `FieldsLocal`,
+  `NoFieldRedecl`, `StepFree`, `SubGuarded`, `StarCheck`; `TC` is the transitive closure of `Spec/Den.lean`):
+  `acyclic_of_acyclic_rel`, `acyclic_iff_acyclic_rel`, `isSub_iff_rtc_of_acyclic_rel`,
+  `isSub_iff_rtc_closed_of_acyclic_rel`, `supers_iff_rtc_of_acyclic_rel`, `isSub_trans_of_acyclic_rel`,
+  `isSub_antisymm_of_acyclic_rel`, `isSub_sound`, `assocs_of_asset_rtc_of_acyclic_rel`,
+  `type_soundness_of_acyclic_rel`, `overapprox_of_acyclic_rel`; `noShadow_of_primitive`,
+  `fieldsUnique_of_primitive`, `fieldsLocal_needed`, `type_soundness_primitive`, `overapprox_primitive`.
+* the static typing and the source type: `typing_invariant`, `typing_monotone`,
+  `typing_monotone_needs_guard` (monotonicity fails for a subtype filter applied to an attack step),
+  `star_side_condition_down`, `star_side_condition_single_test`, `star_side_condition_of_check`,
+  `type_soundness_checked`.
 -/
 namespace MalVerif.C15
 open MalVerif MalVerif.LG
@@ -487,18 +499,278 @@ example : ∃ g ns es, generate lgL = .ok g ∧ genGraph lgL lgM = .ok (ns, es) 
       · intro A hA st hst e he
         exact ⟨starFree_of_noStarNoVar lgL _ e (h3 A hA st hst e he).1, (h3 A hA st hst e he).2⟩
 
-/- UNPROVED (not attempted; nothing below is used above)
+/-! ### 9. acyclicity from the relation -/
 
-1. Acyclicity from the relation: `(∀ t, ¬ TC (Extends L) t t) → Acyclic L` (pigeonhole on the names of
-   the ancestor walk: pairwise distinct declared names, hence at most `|assets|` of them).  The
-   theorems take `Acyclic L` / `L.chainOK (|assets| + 1) t` (the walk is not cut by the fuel), which is
-   decidable for a concrete language (`acyclic_of_check`).
-2. `NoShadow L` from the primitive condition "no asset declares a variable that one of its proper
-   ancestors declares"; `FieldsUnique` from the analogous condition on field names.
-3. Monotonicity of the static typing in the source type (`T' ≤ T`, `e` typed from `T` with target `U`
-   ⟹ `e` typed from `T'` with a target `≤ U`), which would reduce the side condition `StarTyped` for
-   `e*` at `T` to the single test "`e` leads from `T` to a sub asset of `T`" of the MAL type checker.
-4. The step name of expressions that do not end in an attack step (`lastStep e = none`): the static
+/-- **Acyclicity from the relation**: when no asset type is its own proper ancestor (`TC`: transitive
+closure, `Spec/Den.lean`), no ancestor walk is cut by the fuel `|assets| + 1` — pigeonhole on the pairwise distinct
+declared names along the walk.  The converse holds, too. -/
+theorem acyclic_of_acyclic_rel (L : Lang) (hno : ∀ t, ¬ TC (Extends L) t t) : Acyclic L :=
+  acyclic_of_no_cycle L hno
+
+theorem acyclic_iff_acyclic_rel (L : Lang) : Acyclic L ↔ ∀ t, ¬ TC (Extends L) t t :=
+  acyclic_iff_no_cycle L
+
+/-- `isSub_iff_rtc` with the relational hypothesis -/
+theorem isSub_iff_rtc_of_acyclic_rel (L : Lang) (hno : ∀ t, ¬ TC (Extends L) t t) (t u : String) :
+    L.isSub t u = true ↔
+      (L.findAsset t).isSome = true ∧ (L.findAsset u).isSome = true ∧ RTC (Extends L) t u :=
+  isSub_iff_rtc L t u (acyclic_of_no_cycle L hno t)
+
+theorem isSub_iff_rtc_closed_of_acyclic_rel (L : Lang) (hno : ∀ t, ¬ TC (Extends L) t t)
+    (hs : supersOk L = true) (t u : String) :
+    L.isSub t u = true ↔ (L.findAsset t).isSome = true ∧ RTC (Extends L) t u :=
+  isSub_iff_rtc_closed L hs t u (acyclic_of_no_cycle L hno t)
+
+theorem supers_iff_rtc_of_acyclic_rel (L : Lang) (hno : ∀ t, ¬ TC (Extends L) t t) (t u : String) :
+    u ∈ supers L t ↔
+      (L.findAsset t).isSome = true ∧ (L.findAsset u).isSome = true ∧ RTC (Extends L) t u :=
+  supers_iff_rtc L t u (acyclic_of_no_cycle L hno t)
+
+theorem isSub_trans_of_acyclic_rel (L : Lang) (hno : ∀ t, ¬ TC (Extends L) t t) (t u v : String)
+    (h1 : L.isSub t u = true) (h2 : L.isSub u v = true) : L.isSub t v = true :=
+  isSub_trans L t u v (acyclic_of_no_cycle L hno t) h1 h2
+
+/-- … so that `is_subasset_of` is a partial order on the declared assets: it is antisymmetric -/
+theorem isSub_antisymm_of_acyclic_rel (L : Lang) (hno : ∀ t, ¬ TC (Extends L) t t) (t u : String)
+    (h1 : L.isSub t u = true) (h2 : L.isSub u t = true) : t = u := by
+  rcases (isSub_rtc h1).2.eq_or_tc with e | h
+  · exact e
+  · exact absurd (h.trans_rtc (isSub_rtc h2).2) (hno t)
+
+/-- one direction of `isSub_iff_rtc` needs no hypothesis at all -/
+theorem isSub_sound (L : Lang) (t u : String) (h : L.isSub t u = true) :
+    (L.findAsset t).isSome = true ∧ (L.findAsset u).isSome = true ∧ RTC (Extends L) t u :=
+  ⟨isSub_declared_left h, (isSub_rtc h).1, (isSub_rtc h).2⟩
+
+theorem assocs_of_asset_rtc_of_acyclic_rel (L : Lang) (nodes : List AssocDecl) (h : assocNodes L = .ok nodes)
+    (hsig : SigDistinct L) (hno : ∀ t, ¬ TC (Extends L) t t) (t : String) (d : AssocDecl) :
+    d ∈ assocsOf L nodes t ↔
+      d ∈ L.assocs ∧ (L.findAsset t).isSome = true ∧
+        ∃ u, (u = d.leftAsset ∨ u = d.rightAsset) ∧ (L.findAsset u).isSome = true ∧ RTC (Extends L) t u :=
+  assocs_of_asset_rtc L nodes h hsig t (acyclic_of_no_cycle L hno t) d
+
+theorem type_soundness_of_acyclic_rel (L : Lang) (m : Inst) (nodes : List AssocDecl)
+    (hno : ∀ t, ¬ TC (Extends L) t t)
+    (hfu : FieldsUnique L nodes) (hns : NoShadow L) (hv : ValidFor L m nodes)
+    (k k' : Nat) (e : Expr) (T U : String) (st : Option String) (hstar : StarTyped L nodes k e T)
+    (ht : typeF L nodes k e T = .ok (some (U, st)))
+    (xs : List Int) (hxs : ∀ x ∈ xs, Typed L m T x)
+    (r : List Int × Option String) (he : evalF L m k' e xs = .ok r) :
+    ∀ y ∈ r.1, Typed L m U y :=
+  type_soundness L m nodes (acyclic_of_no_cycle L hno) hfu hns hv k k' e T U st hstar ht xs hxs r he
+
+theorem overapprox_of_acyclic_rel (L : Lang) (m : Inst) (g : Graph) (ns : List GNode) (es : List (Nat × Nat))
+    (hg : generate L = .ok g) (hgen : genGraph L m = .ok (ns, es))
+    (hno : ∀ t, ¬ TC (Extends L) t t) (hfu : FieldsUnique L g.assocs) (hns : NoShadow L)
+    (hv : ValidFor L m g.assocs)
+    (hexpr : ∀ A ∈ L.assets, ∀ st ∈ L.foldSteps A.name, ∀ e ∈ reachExprs st.2,
+      StarTyped L g.assocs (genFuel L) e A.name ∧ (lastStep e).isSome = true)
+    (a b : Nat) (hab : (a, b) ∈ es) :
+    ∃ n ∈ ns, n.id = a ∧ ∃ X ∈ m.assets, n.asset = X.id ∧
+    ∃ t ∈ ns, t.id = b ∧ ∃ Y ∈ m.assets, ∃ tn U, t.fullName = Y.name ++ ":" ++ tn ∧
+      ({ srcAsset := X.type, srcStep := n.step, dstAsset := U, dstStep := tn } : Link) ∈ g.links ∧
+      L.isSub Y.type U = true :=
+  overapprox L m g ns es hg hgen (acyclic_of_no_cycle L hno) hfu hns hv hexpr a b hab
+
+/-- non-vacuity: `lgL` has no `extends` cycle … -/
+example : ∀ t, ¬ TC (Extends lgL) t t :=
+  (acyclic_iff_acyclic_rel lgL).1 (acyclic_of_check lgL (by decide))
+
+/-- … while in `cycL` (`A extends B extends A`, `C extends A`) `A` is its own proper ancestor, the walk
+from `C` is cut by the fuel, and `cycL` is not `Acyclic` -/
+example : TC (Extends cycL) "A" "A" ∧ cycL.chainOK (cycL.assets.length + 1) "C" = false ∧ ¬ Acyclic cycL := by
+  have h : TC (Extends cycL) "A" "A" :=
+    .snoc (.one ⟨{ name := "A", superAsset := some "B" }, rfl, rfl⟩)
+      ⟨{ name := "B", superAsset := some "A" }, rfl, rfl⟩
+  exact ⟨h, by decide, fun hac => (acyclic_iff_acyclic_rel cycL).1 hac "A" h⟩
+
+/-! ### 10. `NoShadow` and `FieldsUnique` from primitive conditions -/
+
+/-- **`NoShadow` from the primitive condition**: when no asset declares a variable that one of its
+proper ancestors declares (`NoVarRedecl`), a sub asset sees the definition its ancestors see -/
+theorem noShadow_of_primitive (L : Lang) (hno : ∀ t, ¬ TC (Extends L) t t) (h : NoVarRedecl L) :
+    NoShadow L :=
+  noShadow_of_noVarRedecl L (acyclic_of_no_cycle L hno) h
+
+/-- **`FieldsUnique` from the primitive conditions**: one asset type does not get a field name with
+two different targets (`FieldsLocal`), and no asset type has a field that one of its proper ancestors
+has (`NoFieldRedecl`).  No hypothesis on cycles. -/
+theorem fieldsUnique_of_primitive (L : Lang) (nodes : List AssocDecl) (hl : FieldsLocal nodes)
+    (hr : NoFieldRedecl L nodes) : FieldsUnique L nodes :=
+  fieldsUnique_of_noFieldRedecl L nodes hl hr
+
+/-- the condition on the hierarchy alone does not suffice (`twoL`: no `extends` at all, `A` gets the
+field `f` from two associations with the targets `B` and `C`) -/
+theorem fieldsLocal_needed : NoFieldRedecl twoL twoL.assocs ∧ ¬ FieldsUnique twoL twoL.assocs := by
+  constructor
+  · intro d1 _ d2 _ f S1 U1 S2 U2 _ _ htc
+    have hext : ∀ t u, ¬ Extends twoL t u := by
+      rintro t u ⟨a, ha, hs⟩
+      have hm := findAsset_mem ha
+      simp only [twoL, List.mem_cons, List.not_mem_nil, or_false] at hm
+      rcases hm with rfl | rfl | rfl <;> cases hs
+    obtain ⟨s, hs, _⟩ := htc.head_cases
+    exact hext _ _ hs
+  · intro h
+    have := h { name := "AB", leftAsset := "A", leftField := "ab", rightAsset := "B", rightField := "f" }
+      (by decide) { name := "AC", leftAsset := "A", leftField := "ac", rightAsset := "C", rightField := "f" }
+      (by decide) "f" "A" "B" "A" "C" "A" (Or.inl ⟨rfl, rfl, rfl⟩) (Or.inl ⟨rfl, rfl, rfl⟩)
+      (by decide) (by decide)
+    exact absurd this (by decide)
+
+/-- `type_soundness` with all hypotheses on the language in primitive form -/
+theorem type_soundness_primitive (L : Lang) (m : Inst) (nodes : List AssocDecl)
+    (hno : ∀ t, ¬ TC (Extends L) t t) (hl : FieldsLocal nodes) (hr : NoFieldRedecl L nodes)
+    (hnv : NoVarRedecl L) (hv : ValidFor L m nodes)
+    (k k' : Nat) (e : Expr) (T U : String) (st : Option String) (hstar : StarTyped L nodes k e T)
+    (ht : typeF L nodes k e T = .ok (some (U, st)))
+    (xs : List Int) (hxs : ∀ x ∈ xs, Typed L m T x)
+    (r : List Int × Option String) (he : evalF L m k' e xs = .ok r) :
+    ∀ y ∈ r.1, Typed L m U y :=
+  type_soundness L m nodes (acyclic_of_no_cycle L hno) (fieldsUnique_of_noFieldRedecl L nodes hl hr)
+    (noShadow_of_primitive L hno hnv) hv k k' e T U st hstar ht xs hxs r he
+
+/-- `overapprox` with all hypotheses on the language in primitive form -/
+theorem overapprox_primitive (L : Lang) (m : Inst) (g : Graph) (ns : List GNode) (es : List (Nat × Nat))
+    (hg : generate L = .ok g) (hgen : genGraph L m = .ok (ns, es))
+    (hno : ∀ t, ¬ TC (Extends L) t t) (hl : FieldsLocal g.assocs) (hr : NoFieldRedecl L g.assocs)
+    (hnv : NoVarRedecl L) (hv : ValidFor L m g.assocs)
+    (hexpr : ∀ A ∈ L.assets, ∀ st ∈ L.foldSteps A.name, ∀ e ∈ reachExprs st.2,
+      StarTyped L g.assocs (genFuel L) e A.name ∧ (lastStep e).isSome = true)
+    (a b : Nat) (hab : (a, b) ∈ es) :
+    ∃ n ∈ ns, n.id = a ∧ ∃ X ∈ m.assets, n.asset = X.id ∧
+    ∃ t ∈ ns, t.id = b ∧ ∃ Y ∈ m.assets, ∃ tn U, t.fullName = Y.name ++ ":" ++ tn ∧
+      ({ srcAsset := X.type, srcStep := n.step, dstAsset := U, dstStep := tn } : Link) ∈ g.links ∧
+      L.isSub Y.type U = true :=
+  overapprox L m g ns es hg hgen (acyclic_of_no_cycle L hno) (fieldsUnique_of_noFieldRedecl L _ hl hr)
+    (noShadow_of_primitive L hno hnv) hv hexpr a b hab
+
+/-- non-vacuity: in `varL` (`Leaf extends Base`, `Base` declares `hs`, `Leaf` declares `own`) nothing is
+redeclared, and `Leaf` sees `Base`'s `hs` … -/
+example : NoVarRedecl varL ∧ NoShadow varL ∧ varL.lookupVar "Leaf" "hs" = some (.field "hosts") := by
+  have hac : Acyclic varL := acyclic_of_check varL (by decide)
+  have h := noVarRedecl_of_check varL hac (by decide)
+  exact ⟨h, noShadow_of_primitive varL ((acyclic_iff_acyclic_rel varL).1 hac) h, by decide⟩
+
+/-- … while `shadowL`, in which `Leaf` redeclares `hs`, satisfies neither condition -/
+example : ¬ NoVarRedecl shadowL ∧ ¬ NoShadow shadowL := by
+  constructor
+  · intro h
+    refine h "Leaf" "Base" _ _ "hs" rfl rfl (.one ⟨_, rfl, rfl⟩) (by decide) (by decide)
+  · intro h
+    have := h "Leaf" "Base" "hs" (.field "hosts") (by decide) (by decide)
+    exact absurd this (by decide)
+
+/-- the primitive conditions on field names hold for `lgL` -/
+example : FieldsLocal [runs, hl, ho] ∧ NoFieldRedecl lgL [runs, hl, ho] :=
+  ⟨fieldsLocal_of_check _ (by decide),
+   noFieldRedecl_of_check lgL _ (acyclic_of_check lgL (by decide)) (by decide) (by decide)⟩
+
+/-! ### 11. the static typing and the source type; the side condition on transitive steps -/
+
+/-- **The static type of a step-free expression does not depend on the source type within a
+hierarchy**: `T' ≤ T` and `e` typed from `T` imply that `e` is typed from `T'` with the same result
+(`StepFree`: no attack step in `e`, also not inside the definitions of the variables used). -/
+theorem typing_invariant (L : Lang) (nodes : List AssocDecl) (hac : Acyclic L)
+    (hfu : FieldsUnique L nodes) (hns : NoShadow L) (k : Nat) (e : Expr) (T T' : String)
+    (r : String × Option String) (hfree : StepFree L k e) (hs : L.isSub T' T = true)
+    (ht : typeF L nodes k e T = .ok (some r)) : typeF L nodes k e T' = .ok (some r) :=
+  typeF_rigid L nodes hac hfu hns k e T T' r hfree hs ht
+
+/-- **Monotonicity of the static typing in the source type.**  `T' ≤ T` and `e` typed from `T` with
+target `U` imply that `e` is typed from `T'` with the same step name and a target `U' ≤ U` — for
+expressions in which the operand of every subtype filter `[S]` is step-free (`SubGuarded`; every
+expression the compiler emits: attack steps only occur last).  `nodes` are the association nodes of
+`L`. -/
+theorem typing_monotone (L : Lang) (nodes : List AssocDecl) (hn : assocNodes L = .ok nodes)
+    (hac : Acyclic L) (hfu : FieldsUnique L nodes) (hns : NoShadow L) (k : Nat) (e : Expr)
+    (T T' U : String) (st : Option String) (hg : SubGuarded L k e) (hs : L.isSub T' T = true)
+    (ht : typeF L nodes k e T = .ok (some (U, st))) :
+    ∃ U', typeF L nodes k e T' = .ok (some (U', st)) ∧ L.isSub U' U = true :=
+  typeF_mono L nodes hac hfu hns (LG.nodes_ends_declared L nodes hn) k e T T' U st hg hs ht
+
+/-- **Monotonicity fails without the guard** (finding): in `lgL`, `[Other](access)` — a subtype filter
+applied to an attack step — is typed from `Base` (target `Other`) but has no target from
+`Leaf ≤ Base`: the step expression `access` has the *source* type as its target, `Other ≤ Base` but
+not `Other ≤ Leaf`.  All other hypotheses of `typing_monotone` hold for `lgL`. -/
+theorem typing_monotone_needs_guard :
+    lgL.isSub "Leaf" "Base" = true ∧
+    typeF lgL [runs, hl, ho] (genFuel lgL) (.sub "Other" (.step "access")) "Base" =
+      .ok (some ("Other", some "access")) ∧
+    typeF lgL [runs, hl, ho] (genFuel lgL) (.sub "Other" (.step "access")) "Leaf" = .ok none := by
+  refine ⟨by decide, by decide, by decide⟩
+
+/-- for a step-free expression typed from `T`, the side condition at `T` implies the side condition
+at every sub asset of `T` -/
+theorem star_side_condition_down (L : Lang) (nodes : List AssocDecl) (hac : Acyclic L)
+    (hfu : FieldsUnique L nodes) (hns : NoShadow L) (k : Nat) (e : Expr) (T T' : String)
+    (r : String × Option String) (hfree : StepFree L k e) (hs : L.isSub T' T = true)
+    (ht : typeF L nodes k e T = .ok (some r)) (hstar : StarTyped L nodes k e T) :
+    StarTyped L nodes k e T' :=
+  starTyped_down L nodes hac hfu hns k e T T' r hfree hs ht hstar
+
+/-- **The side condition for `e*` at `T` reduces to the single test of the MAL type checker**: the
+operand `e` (step-free, itself satisfying the side condition at `T`, e.g. because it contains no
+transitive step) leads from `T` to a sub asset of `T`. -/
+theorem star_side_condition_single_test (L : Lang) (nodes : List AssocDecl) (hac : Acyclic L)
+    (hfu : FieldsUnique L nodes) (hns : NoShadow L) (k : Nat) (e : Expr) (T U : String)
+    (st : Option String) (hfree : StepFree L k e) (hstar : StarTyped L nodes k e T)
+    (ht : typeF L nodes k e T = .ok (some (U, st))) (hs : L.isSub U T = true) :
+    StarTyped L nodes k (.trans e) T :=
+  starTyped_trans_of_test L nodes hac hfu hns k e T U st hfree hstar ht hs
+
+/-- the same for a whole expression: `StarCheck` demands, at every transitive step `e*` reached at an
+asset type `T`, that `e` is step-free and, if typed from `T`, leads to a sub asset of `T` -/
+theorem star_side_condition_of_check (L : Lang) (nodes : List AssocDecl) (hac : Acyclic L)
+    (hfu : FieldsUnique L nodes) (hns : NoShadow L) (k : Nat) (e : Expr) (T : String)
+    (h : StarCheck L nodes k e T) : StarTyped L nodes k e T :=
+  starTyped_of_starCheck L nodes hac hfu hns k e T h
+
+/-- `type_soundness` under the test of the MAL type checker -/
+theorem type_soundness_checked (L : Lang) (m : Inst) (nodes : List AssocDecl) (hac : Acyclic L)
+    (hfu : FieldsUnique L nodes) (hns : NoShadow L) (hv : ValidFor L m nodes)
+    (k k' : Nat) (e : Expr) (T U : String) (st : Option String) (hstar : StarCheck L nodes k e T)
+    (ht : typeF L nodes k e T = .ok (some (U, st)))
+    (xs : List Int) (hxs : ∀ x ∈ xs, Typed L m T x)
+    (r : List Int × Option String) (he : evalF L m k' e xs = .ok r) :
+    ∀ y ∈ r.1, Typed L m U y :=
+  type_soundness L m nodes hac hfu hns hv k k' e T U st
+    (starTyped_of_starCheck L nodes hac hfu hns k e T hstar) ht xs hxs r he
+
+/-- non-vacuity of `typing_monotone`: `hosts.compromise` from `Base` and from `Leaf ≤ Base` (same target),
+`access` from `Base` and from `Leaf` (the target shrinks) -/
+example : ∃ U', typeF lgL [runs, hl, ho] (genFuel lgL) (.collect (.field "hosts") (.step "compromise")) "Leaf" =
+    .ok (some (U', some "compromise")) ∧ lgL.isSub U' "Host" = true :=
+  typing_monotone lgL [runs, hl, ho] (by decide) (acyclic_of_check lgL (by decide))
+    (fieldsUnique_of_check lgL _ (by decide)) (noShadow_of_no_variables lgL (by decide)) _ _ "Base" "Leaf" "Host" _
+    (subGuarded_of_check lgL _ _ (by decide)) (by decide) (by decide)
+
+example : typeF lgL [runs, hl, ho] (genFuel lgL) (.step "access") "Base" = .ok (some ("Base", some "access")) ∧
+    typeF lgL [runs, hl, ho] (genFuel lgL) (.step "access") "Leaf" = .ok (some ("Leaf", some "access")) := by
+  refine ⟨by decide, by decide⟩
+
+/-- non-vacuity of the reduction: `(subdirs)*` on `Dir` passes the single test, hence the side condition -/
+example : StarTyped dirL [contains] (genFuel dirL) (.trans (.field "subdirs")) "Dir" :=
+  star_side_condition_single_test dirL [contains] (acyclic_of_check dirL (by decide))
+    (fieldsUnique_of_check dirL _ (by decide)) (noShadow_of_no_variables dirL (by decide)) _ _ "Dir" "Dir" none
+    (stepFree_of_noStepNoVar dirL _ _ (by decide)) trivial (by decide) (by decide)
+
+/-- … while `(next)*` on `A` in `starL` fails it (`next` leads from `A` to `B`, and `B` is not a sub asset of `A`) -/
+example : typeF starL starL.assocs (genFuel starL) (.field "next") "A" = .ok (some ("B", none)) ∧
+    starL.isSub "B" "A" = false := by
+  refine ⟨by decide, by decide⟩
+
+/- UNPROVED (nothing below is used above)
+
+1. (was item 3, remainder) Monotonicity of the static typing holds for `SubGuarded` expressions only
+   (`typing_monotone`, counterexample `typing_monotone_needs_guard`); the downward closure of the side
+   condition (`star_side_condition_down`) and its reduction to the single test
+   (`star_side_condition_single_test`, `StarCheck`) are proved for *step-free* operands of `*`.  Not
+   attempted: the downward closure of `StarTyped` for expressions that contain attack steps in other
+   positions than below `*` (e.g. a whole reaches expression `a.(b)*.step` moved to a sub asset).
+2. `NoShadow` is derived from `NoVarRedecl` under acyclicity (`noShadow_of_primitive`); whether the
+   hypothesis on cycles can be dropped there was not investigated (`FieldsUnique` needs none).
+3. The step name of expressions that do not end in an attack step (`lastStep e = none`): the static
    typing passes the step name of the operand through `*` and `[T]` while the evaluator returns `none`
    there; `overapprox` assumes `(lastStep e).isSome` (every reaches expression the compiler emits).
 -/
